@@ -22,11 +22,63 @@ from .c05 import _resolve_local
 KS = "_keys:KeySet"
 
 
+def _get_by_kid_folded(ctx, fn) -> Optional[List[str]]:
+    """Fold KeySet.get_by_kid on probe sets (0, 1, 3 keys; a duplicated kid; kid None / present / absent): the result is the single key
+    when no kid is asked for and the set holds one key, otherwise the first key in set order whose kid equals the request, otherwise
+    InvalidKeyIdError.  None when the body does not fold or a test was decided one way only on the probes (the path rule decides then)."""
+    from ..fold import FuncVal, FoldRaise
+    eng = ctx.eng
+    P, F = eng.prog, eng.folder
+    oc = P.cls("rfc7518.oct_key:OctKey")
+    ka, kb, ka2 = [Inst(oc, {"kid": k}) for k in ("a", "b", "a")]
+    problems: List[str] = []
+    n = 0
+    F.start_trace()
+    try:
+        for keys in ([], [ka], [kb, ka, ka2], [ka, ka2]):
+            for kid in (None, "a", "b", "zz"):
+                inst = Inst(P.cls(KS), {"keys": list(keys)})
+                want = keys[0] if (kid is None and len(keys) == 1) else next((k for k in keys if k.attrs["kid"] == kid), None)
+                try:
+                    r = F.call(FuncVal(fn, None, inst), [kid], {})
+                except FoldRaise as e:
+                    r = e
+                n += 1
+                where = f"{len(keys)} key(s) with kids {[k.attrs['kid'] for k in keys]}, request {kid!r}"
+                if isinstance(r, FoldRaise):
+                    nm = getattr(getattr(r.exc, "cls", None), "name", None)
+                    if want is not None:
+                        problems.append(f"get_by_kid refuses although a key matches ({where})")
+                    elif nm != "InvalidKeyIdError":
+                        problems.append(f"an unknown kid raises {r.exc!r}, not the invalid-key-id error ({where})")
+                elif is_unknown(r):
+                    return None
+                elif want is None:
+                    problems.append(f"get_by_kid returns {r!r} on a path that established neither `kid is None and a single key` nor `key.kid == kid` ({where})")
+                elif r is not want:
+                    problems.append(f"get_by_kid returns a key other than the first match in set order ({where})")
+                if inst.attrs["keys"] != list(keys):
+                    problems.append("get_by_kid changes the key list")
+    except AnalysisError:
+        return None
+    finally:
+        sided = F.one_sided()
+    if sided:
+        return None
+    return problems
+
+
 def r14_1(ctx) -> None:
     eng = ctx.eng
     fn = eng.prog.cls(KS).methods.get("get_by_kid")
     if fn is None:
         raise AnalysisError("KeySet.get_by_kid vanished")
+    folded = _get_by_kid_folded(ctx, fn)
+    if folded is not None:
+        ctx.check(not folded, "R14.1", fn, fn.node, f"{fn.short} :: selection (folded on probe sets)", folded[0] if folded else "", "single key when no kid is asked; else first key whose kid matches; else InvalidKeyIdError",
+                  construct="get_by_kid selection")
+        ctx.count("R14.1", 2, 2, "return paths of get_by_kid")
+        return
     sn = fn.self_name
     kp = fn.pos_params[1]
     loops0 = [l for l in cfg_of(fn).nodes if l.kind == "loop"]
@@ -229,6 +281,53 @@ def r14_3(ctx) -> None:
         ctx.check(nm in T.JWE_DRAFT_ALGS and kt == T.JWE_DRAFT_ALGS[nm][0], "R14.3", None, None, f"draft {nm} key types", f"{nm}: key types {kt!r}", f"= {kt}", construct=f"draft key types {nm}")
 
 
+def _pick_random_folded(ctx, pr) -> Optional[List[str]]:
+    """Fold KeySet.pick_random_key on probe sets (random.choice stays symbolic): the pool handed to random.choice is exactly the keys, in
+    set order, whose key_type the algorithm's entry names - the whole set when there is no entry - and the result is None when the pool is
+    empty.  None when the body does not fold or a test was decided one way only on the probes."""
+    from ..fold import Inst, FuncVal, ExtVal, FoldRaise, is_unknown
+    eng = ctx.eng
+    P, F = eng.prog, eng.folder
+    kcs = [P.cls(q) for q in ("rfc7518.oct_key:OctKey", "rfc7518.rsa_key:RSAKey", "rfc7518.ec_key:ECKey", "rfc7518.oct_key:OctKey")]
+    keys = [Inst(c, {}) for c in kcs]
+    kts = [F.get_attr(k, "key_type") for k in keys]
+    if any(not isinstance(x, str) for x in kts):
+        return None
+    table = {"A-oct": ["oct"], "A-pk": ["RSA", "EC"], "A-okp": ["OKP"], "A-empty": []}
+    problems: List[str] = []
+    F.start_trace()
+    try:
+        for keyset in (keys, []):
+            for alg in list(table) + ["A-unlisted"]:
+                inst = Inst(P.cls(KS), {"keys": list(keyset), "algorithm_keys": {k: list(v) for k, v in table.items()}})
+                try:
+                    r = F.call(FuncVal(pr, None, inst), [alg], {})
+                except FoldRaise:
+                    return None
+                want = [k for k, kt in zip(keyset, kts) if kt in table[alg]] if table.get(alg) else list(keyset)
+                if is_unknown(r):
+                    return None
+                if not want:
+                    if r is not None:
+                        problems.append(f"with no eligible key for {alg} the result folds to {r!r}, not None")
+                    continue
+                if not (isinstance(r, ExtVal) and r.name == "random.choice" and r.called and len(r.args) == 1 and isinstance(r.args[0], (list, tuple))):
+                    problems.append(f"for {alg} the result folds to {r!r}, not random.choice(<eligible keys>)")
+                    continue
+                pool = list(r.args[0])
+                if len(pool) != len(want) or any(a is not b for a, b in zip(pool, want)):
+                    problems.append(f"for an algorithm whose entry is {table.get(alg)} the pool holds key types {[F.get_attr(k, 'key_type') for k in pool]}, the eligible keys are {[F.get_attr(k, 'key_type') for k in want]}")
+                if inst.attrs["keys"] != list(keyset):
+                    problems.append("pick_random_key changes the key list")
+    except AnalysisError:
+        return None
+    finally:
+        sided = F.one_sided()
+    if sided:
+        return None
+    return problems
+
+
 def r14_4_5(ctx) -> None:
     eng = ctx.eng
     P = eng.prog
@@ -245,6 +344,18 @@ def r14_4_5(ctx) -> None:
                     bad.append(norm(ef.node)[:60])
         ctx.check(not bad, "R14.4", fn, fn.node, f"{fn.short} :: read-only", f"{m} reorders / modifies the key set: {bad}", "no store to self.keys / the set object", construct=f"{m} mutates the set")
     pr = ks.methods["pick_random_key"]
+    folded = _pick_random_folded(ctx, pr)
+    if folded is not None:
+        ctx.check(not folded, "R14.4", pr, pr.node, f"{pr.short} :: filter (folded on probe sets)", "the random pick is not restricted to keys of the key type(s) the algorithm requires"
+                  + (": " + folded[0] if folded else ""), "pool = keys whose key_type is in algorithm_keys.get(alg) (all keys when there is no entry); None when empty",
+                  construct="pick_random_key filter")
+    else:
+        _pick_random_shape(ctx, pr)
+    _r14_5(ctx, ks)
+
+
+def _pick_random_shape(ctx, pr) -> None:
+    eng = ctx.eng
     cfg = cfg_of(pr)
     sn = pr.self_name
     ap = pr.pos_params[1]
@@ -271,7 +382,11 @@ def r14_4_5(ctx) -> None:
             okc = okc and a0 is flt
     ctx.check(okt and okf and okc, "R14.4", pr, pr.node, f"{pr.short} :: filter", "the random pick is not restricted to keys of the key type(s) the algorithm requires",
               "keys = [k for k in self.keys if k.key_type in algorithm_keys.get(alg)]; random.choice(keys)", construct="pick_random_key filter")
-    # R14.5
+
+
+def _r14_5(ctx, ks) -> None:
+    eng = ctx.eng
+    P = eng.prog
     init = ks.methods["__init__"]
     cfgi = cfg_of(init)
     kp = init.pos_params[1]
